@@ -1,5 +1,7 @@
 import PugModel.Tpl.Compile
 import PugModel.JS.Spec
+import PugProofs.C01.EvalScalar
+import PugProofs.C01.SpecScalar
 /-!
 # C01 — embedded JavaScript expressions evaluate as JavaScript does (core subset)
 
@@ -160,5 +162,56 @@ theorem C01_conditional (t a b : Val) (ha : a.isObject = true) (hb : b.isObject 
   simp only [callBuiltin, h1, h2, bind, StateT.bind, getHeap, get, getThe, MonadStateOf.get, StateT.get, pure, Except.pure,
     Except.bind, StateT.pure]
   by_cases hT : truth st.heap t = true <;> simp [hT, ca, cb]
+
+/-! ## whole expressions (scalar fragment): transpile, then execute = JavaScript
+
+`JS.SExpr` is the fragment of number / string / boolean literals, variables, `+ - * / %`, the six comparisons, the four
+equalities, `&& || !`, unary minus and `?:`, nested to ANY depth. `JS.sEval` is ECMAScript on it. The helper lemmas are in
+`PugProofs/C01/*.lean`; the three statements below are the property. -/
+
+open Pug.JS Pug.Props.C01S in
+/-- **C01 (whole expressions).** For EVERY expression of the scalar fragment (any nesting), EVERY environment and EVERY
+execution state whose variables hold the environment's values: if JavaScript gives the expression a value `r`, then
+(1) the transpiler emits the term `tr e` for it, (2) the executor evaluates that term to (a representation of) `r` and
+leaves the state unchanged, and (3) the reference evaluator the check uses as its oracle says `r` too. -/
+theorem C01_eval_scalar (env : CEnv) (ρ : SEnv) (e : SExpr) (r : SVal) (hw : WF env e) (h : sEval ρ e = some r)
+    (st : St) (hag : Agree st ρ) :
+    (∀ fuel, e.depth < fuel → compileExprF fuel env e.toExpr = .ok (some (tr e))) ∧
+    (∀ fuel, 2 * e.depth < fuel → ∃ v, evalExpr fuel (tr e) st = .ok (v, st) ∧ Rep v r) ∧
+    (∀ fuel, e.depth < fuel → JS.evalF fuel ρ.toJS e.toExpr = some r.toJS) :=
+  ⟨fun fuel hf => compile_scalar env e hw fuel hf,
+   fun fuel hf => eval_scalar ρ e r h st hag fuel hf,
+   fun fuel hf => evalF_scalar ρ e r h fuel hf⟩
+
+open Pug.JS Pug.Props.C01S in
+/-- the same, for the entry points the driver and the checks call (their fuel is far above any nesting in use) -/
+theorem C01_eval_scalar_entry (env : CEnv) (ρ : SEnv) (e : SExpr) (r : SVal) (hw : WF env e) (h : sEval ρ e = some r)
+    (hd : e.depth < 50000) :
+    compileExpr env e.toExpr = .ok (some (tr e)) ∧ JS.eval ρ.toJS e.toExpr = some r.toJS :=
+  ⟨compile_scalar env e hw exprFuel (by simp only [exprFuel]; omega),
+   evalF_scalar ρ e r h evalFuel (by simp only [evalFuel]; omega)⟩
+
+open Pug.JS Pug.Props.C01S in
+/-- **C01 (buffered code prints the JavaScript value).** The template node `{{ tr e | __pug__html }}` runs `printVal` on a
+representation of the JavaScript value: what is printed is determined by JavaScript's result alone. -/
+theorem C01_print_scalar (ρ : SEnv) (e : SExpr) (r : SVal) (h : sEval ρ e = some r) (st : St) (hag : Agree st ρ)
+    (env : Tpl.Env) (esc : Bool) (fuel : Nat) (hf : 2 * e.depth + 1 < fuel) :
+    ∃ v, Rep v r ∧ walk fuel env (.print (tr e) esc) st = printVal v esc st := by
+  obtain ⟨f, rfl⟩ : ∃ f, fuel = f + 1 := ⟨fuel - 1, by omega⟩
+  obtain ⟨v, hv, rv⟩ := eval_scalar ρ e r h st hag f (by omega)
+  exact ⟨v, rv, by simp [walk, hv, bind, StateT.bind, Except.bind]⟩
+
+open Pug.JS Pug.Props.C01S in
+/-- non-vacuity: `(n + 2) * 3 < 10 ? s + s : !b` over n = 1, s = "x", b = false has the JavaScript value "xx" and is
+well-formed -/
+example :
+    let e : SExpr := .cond (.bin .lt (.bin .mul (.bin .add (.var "n") (.num 2 true)) (.num 3 true)) (.num 10 true))
+      (.bin .add (.var "s") (.var "s")) (.not (.var "b"))
+    let ρ : SEnv := [("n", .num 1), ("s", .str "x"), ("b", .bool false)]
+    sEval ρ e = some (.str "xx") ∧ WF { funcs := ["Math"], parserFuncs := [] } e := by
+  refine ⟨?_, ?_⟩
+  · have h : (((1 : Rat) + 2) * 3 < 10) := by grind
+    simp [sEval, sLookup, sBin, sToBool, h]
+  · simp [WF]
 
 end Pug.Props.C01
